@@ -65,10 +65,32 @@ type fileEffect struct {
 type pathEnv map[*ssa.Parameter]ssa.Value
 
 func resolve(v ssa.Value, env pathEnv) ssa.Value {
-	for k := 0; k < 5; k++ {
+	for k := 0; k < 8; k++ {
 		if pr, ok := v.(*ssa.Parameter); ok {
 			if x, ok := env[pr]; ok {
 				v = x
+				continue
+			}
+		}
+		// the result variable of a helper ( tmpPath, err := f.writeTempFile(path, value) , inlined): the one value that is not the
+		// zero value handed back on its error returns
+		if ph, ok := v.(*ssa.Phi); ok {
+			var only ssa.Value
+			n := 0
+			for _, e := range ph.Edges {
+				if s, isK := core.ConstString(e); isK && s == "" {
+					continue
+				}
+				if core.IsNilConst(e) {
+					continue
+				}
+				if only != e {
+					only = e
+					n++
+				}
+			}
+			if n == 1 {
+				v = only
 				continue
 			}
 		}
@@ -82,8 +104,18 @@ func classifyPath(v ssa.Value, env pathEnv) (class string, suffix string) {
 	v = resolve(v, env)
 	isDest := func(x ssa.Value) bool {
 		x = resolve(x, env)
-		call, ok := x.(*ssa.Call)
-		return ok && core.Callee(call) != nil && cn(core.Callee(call)) == "filePathToFile" && core.TypeIs(recvType(core.Callee(call)), tFileStorage)
+		if call, ok := x.(*ssa.Call); ok && core.Callee(call) != nil && cn(core.Callee(call)) == "filePathToFile" && core.TypeIs(recvType(core.Callee(call)), tFileStorage) {
+			return true
+		}
+		// the same derivation under other helper names, or written out
+		if want := destShape(core.Active); want != "" && strings.Contains(want, "KEY") {
+			anyKey := func(v ssa.Value) bool {
+				pr, ok := v.(*ssa.Parameter)
+				return ok && pr.Type().String() == "string" && core.TypeIs(recvType(pr.Parent()), tFileStorage)
+			}
+			return pathShape(x, anyKey, env, 8) == want
+		}
+		return false
 	}
 	if isDest(v) {
 		return "dest", ""
@@ -301,6 +333,46 @@ func c18r2(c *core.Ctx) {
 			})
 		}
 		walk(f, func(v ssa.Value) bool { return v == ssa.Value(key) }, 2)
+		if !uses {
+			// the helpers were renamed / split / written out: compare the derivation itself with the one Get uses
+			want := destShape(p)
+			isKey := func(v ssa.Value) bool { return v == ssa.Value(key) }
+			var walk2 func(g *ssa.Function, env pathEnv, d int)
+			walk2 = func(g *ssa.Function, env pathEnv, d int) {
+				core.Instrs(g, func(i ssa.Instruction) {
+					h := core.Callee(i)
+					if h == nil {
+						return
+					}
+					switch core.QualName(h) {
+					case "os.OpenFile", "os.Open", "os.Remove", "os.Rename", "os.Create", "io/ioutil.ReadFile", "io/ioutil.WriteFile":
+						for _, a := range core.CallOf(i).Args {
+							if a.Type().String() != "string" {
+								continue
+							}
+							sh := pathShape(a, isKey, env, 8)
+							if want != "" && strings.Contains(want, "KEY") && (sh == want || strings.HasPrefix(sh, want+"+")) {
+								uses = true
+							}
+						}
+						return
+					}
+					if core.InModule(h) && h.Blocks != nil && d > 0 {
+						env2 := pathEnv{}
+						for k, v := range env {
+							env2[k] = v
+						}
+						for k, pr := range h.Params {
+							if k < len(core.CallOf(i).Args) {
+								env2[pr] = resolve(core.CallOf(i).Args[k], env)
+							}
+						}
+						walk2(h, env2, d-1)
+					}
+				})
+			}
+			walk2(f, pathEnv{}, 2)
+		}
 		c.Check(uses, "path-function:"+name, f.Pos(), name+" derives the file name with filePathToFile(key)", name+" does not derive the file name with filePathToFile(key): operations on one key address different files")
 	}
 	if f := p.Func("util", "(*fileStorage).KeysWithSuffix"); f != nil {
@@ -699,6 +771,16 @@ func c19r3(c *core.Ctx) {
 					if call, ok := b.X.(*ssa.Call); ok && core.Callee(call) != nil && cn(core.Callee(call)) == "filePathToFile" {
 						suffixes[s] = true
 					}
+					// the destination path under other helper names, or written out
+					if want := destShape(p); want != "" && strings.Contains(want, "KEY") {
+						anyKey := func(v ssa.Value) bool {
+							pr, ok := v.(*ssa.Parameter)
+							return ok && pr.Type().String() == "string"
+						}
+						if pathShape(b.X, anyKey, pathEnv{}, 8) == want {
+							suffixes[s] = true
+						}
+					}
 				}
 			}
 			if h := core.Callee(i); h != nil && core.InModule(h) && h.Blocks != nil && d > 0 {
@@ -849,4 +931,156 @@ func isWriteCloseErr(v ssa.Value, depth int) bool {
 		}
 	})
 	return n > 0 && all
+}
+
+// ---------------------------------------------------------------- structural shape of a storage path
+
+// pathShape renders how a path string is computed from the key and the storage directory, looking through module helpers
+// (a helper call is replaced by the shape of what it returns under the binding of its parameters), so that
+//
+//	f.filePathToFile(key)      with  filePathToFile(k) = filepath.Join(f.dir(), removeInvalid(k))
+//	f.filePath(fileName(key))  with  filePath(n) = filepath.Join(f.dir(), n), fileName(k) = strings.Replace(k, ":", "", -1)
+//	filepath.Join(f.dirPath, strings.Replace(key, ":", "", -1))
+//
+// all have the shape  path/filepath.Join(DIR,strings.Replace(KEY,":","",-1)) . Operations on one key address the same file iff their
+// shapes agree; the names of the helpers do not matter.
+func pathShape(v ssa.Value, isKey func(ssa.Value) bool, env pathEnv, depth int) string {
+	if depth == 0 {
+		return "…"
+	}
+	v = resolve(core.StripConv(v), env)
+	if isKey != nil && isKey(v) {
+		return "KEY"
+	}
+	if s, ok := core.ConstString(v); ok {
+		return fmt.Sprintf("%q", s)
+	}
+	if k, ok := core.ConstInt(v); ok {
+		return fmt.Sprint(k)
+	}
+	if _, ok := core.FieldLoad(v, tFileStorage, "dirPath"); ok {
+		return "DIR"
+	}
+	switch x := v.(type) {
+	case *ssa.BinOp:
+		if x.Op == token.ADD {
+			return pathShape(x.X, isKey, env, depth-1) + "+" + pathShape(x.Y, isKey, env, depth-1)
+		}
+	case *ssa.Phi:
+		// result variable of an inlined helper: the one non-zero edge (resolve did not find a unique one)
+		return "φ"
+	case *ssa.UnOp:
+		if x.Op == token.MUL {
+			if a, ok := x.X.(*ssa.Alloc); ok {
+				var val ssa.Value
+				n := 0
+				for _, r := range *a.Referrers() {
+					if st, ok := r.(*ssa.Store); ok && st.Addr == ssa.Value(a) {
+						val = st.Val
+						n++
+					}
+				}
+				if n == 1 {
+					return pathShape(val, isKey, env, depth-1)
+				}
+			}
+		}
+	case *ssa.Slice:
+		// variadic argument list
+		if a, ok := x.X.(*ssa.Alloc); ok {
+			arr, isArr := a.Type().(*types.Pointer).Elem().Underlying().(*types.Array)
+			if isArr {
+				elems := make([]string, arr.Len())
+				for _, r := range *a.Referrers() {
+					if ia, ok := r.(*ssa.IndexAddr); ok {
+						if k, isK := core.ConstInt(ia.Index); isK && k >= 0 && k < arr.Len() {
+							for _, rr := range *ia.Referrers() {
+								if st, ok := rr.(*ssa.Store); ok && st.Addr == ssa.Value(ia) {
+									elems[k] = pathShape(st.Val, isKey, env, depth-1)
+								}
+							}
+						}
+					}
+				}
+				return strings.Join(elems, ",")
+			}
+		}
+	case *ssa.Call:
+		g := x.Call.StaticCallee()
+		if g == nil {
+			return "?"
+		}
+		if core.InModule(g) && g.Blocks != nil {
+			// the accessor of the directory
+			if cn(g) == "dir" && core.TypeIs(recvType(g), tFileStorage) {
+				return "DIR"
+			}
+			// helper: shape of its single returned expression under the parameter binding
+			var rets []*ssa.Return
+			core.Instrs(g, func(i ssa.Instruction) {
+				if r, ok := i.(*ssa.Return); ok {
+					rets = append(rets, r)
+				}
+			})
+			if len(rets) == 1 && len(res(rets[0])) >= 1 {
+				env2 := pathEnv{}
+				for k, val := range env {
+					env2[k] = val
+				}
+				for k, pr := range g.Params {
+					if k < len(x.Call.Args) {
+						env2[pr] = resolve(x.Call.Args[k], env)
+					}
+				}
+				return pathShape(res(rets[0])[0], isKey, env2, depth-1)
+			}
+			return "?" + cn(g)
+		}
+		var args []string
+		for _, a := range x.Call.Args {
+			args = append(args, pathShape(a, isKey, env, depth-1))
+		}
+		return core.QualName(g) + "(" + strings.Join(args, ",") + ")"
+	}
+	return "?"
+}
+
+// destShape: the shape of the path Get opens — the reference for "the file of a key".
+func destShape(p *core.Program) string {
+	get := p.Func("util", "(*fileStorage).Get")
+	if get == nil {
+		return ""
+	}
+	key := get.Params[1]
+	shape := ""
+	var walk func(g *ssa.Function, env pathEnv, isKey func(ssa.Value) bool, d int)
+	walk = func(g *ssa.Function, env pathEnv, isKey func(ssa.Value) bool, d int) {
+		core.Instrs(g, func(i ssa.Instruction) {
+			h := core.Callee(i)
+			if h == nil {
+				return
+			}
+			q := core.QualName(h)
+			if q == "os.OpenFile" || q == "os.Open" || q == "io/ioutil.ReadFile" || q == "os.ReadFile" {
+				if shape == "" {
+					shape = pathShape(core.CallOf(i).Args[0], isKey, env, 8)
+				}
+				return
+			}
+			if core.InModule(h) && h.Blocks != nil && d > 0 {
+				env2 := pathEnv{}
+				for k, v := range env {
+					env2[k] = v
+				}
+				for k, pr := range h.Params {
+					if k < len(core.CallOf(i).Args) {
+						env2[pr] = resolve(core.CallOf(i).Args[k], env)
+					}
+				}
+				walk(h, env2, isKey, d-1)
+			}
+		})
+	}
+	walk(get, pathEnv{}, func(v ssa.Value) bool { return v == ssa.Value(key) }, 2)
+	return shape
 }
